@@ -17,6 +17,8 @@ structure St where
   lt : Int → Int → Bool
   heap : Heap Int
   full : FHeap Int := {}
+  /-- are `onAfterInsert` / `onBeforeRemove` registered?  (`if (eventAfterInsert_) …`: with none registered nothing fires) -/
+  reg : Bool := true
 
 def showEv : Ev → String
   | .ins h => s!"I{h}"
@@ -31,14 +33,21 @@ def dump (s : Heap Int) (f : FHeap Int) : String :=
      else " model-split")
 
 /-- keys are `value*1024 + serial` (non-negative); every comparator ignores the serial. -/
+def init0 (ts : List String) : Option St :=
+  match ts with
+  | ["heap", "cmp=less"] => some ⟨fun a b => decide (a / 1024 < b / 1024), {}, {}, true⟩
+  | ["heap", "cmp=greater"] => some ⟨fun a b => decide (a / 1024 > b / 1024), {}, {}, true⟩
+  | ["heap", "cmp=div4"] => some ⟨fun a b => decide (a / 4096 < b / 4096), {}, {}, true⟩
+  | ["heap", "cmp=tie"] => some ⟨fun _ _ => false, {}, {}, true⟩
+  | ["heap", "cmp=mod7"] => some ⟨fun a b => decide ((a / 1024) % 7 < (b / 1024) % 7), {}, {}, true⟩
+  | _ => none
+
+/-- optional third header token `ev=0` / `ev=1`: callbacks not registered / registered (default) -/
 def init (ts : List String) : Option St :=
   match ts with
-  | ["heap", "cmp=less"] => some ⟨fun a b => decide (a / 1024 < b / 1024), {}, {}⟩
-  | ["heap", "cmp=greater"] => some ⟨fun a b => decide (a / 1024 > b / 1024), {}, {}⟩
-  | ["heap", "cmp=div4"] => some ⟨fun a b => decide (a / 4096 < b / 4096), {}, {}⟩
-  | ["heap", "cmp=tie"] => some ⟨fun _ _ => false, {}, {}⟩
-  | ["heap", "cmp=mod7"] => some ⟨fun a b => decide ((a / 1024) % 7 < (b / 1024) % 7), {}, {}⟩
-  | _ => none
+  | [a, b, "ev=0"] => (init0 [a, b]).map (fun st => { st with reg := false })
+  | [a, b, "ev=1"] => init0 [a, b]
+  | _ => init0 ts
 
 def live (s : Heap Int) (h : Nat) : Bool := (findIdx s.arr h).isSome
 
@@ -57,7 +66,7 @@ def step (st : St) (ts : List String) : St × String :=
   /- `evs`: does this operation's result line carry the callbacks (`ins`, `insl`, `rm`)?  Otherwise any callback
   fired is reported as `stray=` after the dump (the model never fires one there). -/
   let fin (s' : Heap Int) (f' : FHeap Int) (res : String) (evs : Bool) : St × String :=
-    let fired := (f'.log.toList.drop f.log.size).map showEv
+    let fired := if st.reg then (f'.log.toList.drop f.log.size).map showEv else []
     let r := if evs then res ++ " ev=" ++ ",".intercalate fired else res
     let stray := if !evs && !fired.isEmpty then " stray=" ++ ",".intercalate fired else ""
     ({ st with heap := s', full := f' }, r ++ " | " ++ dump s' f' ++ stray)
